@@ -277,6 +277,6 @@ func parentMain() {
 	}
 	finish()
 	out.Extra["rule"] = rule
-	out.Extra["builtins_read_from_callbacks_go"] = bi
+	out.Extra["builtins_read_from_running_gorm"] = bi
 	lib.Must(out.Flush())
 }
